@@ -31,9 +31,9 @@ def cases(tier, seed):
             for bidx in ((1.0, 1.8), (1.0, None), (None, None)):
                 for off in ((0.0, 0.0), (300.0, -200.0)):
                     out.append({"kind": "uniform", "range": list(rng), "n": n, "bidx": list(bidx), "offset": list(off)})
-    for split in (-100.0, -400.0, -777.0):
-        out.append({"kind": "split_uniform", "split": split})
-        out.append({"kind": "split_antarctic", "split": split})
+    for split in ((-100.0, -400.0, -777.0) if tier == "quick" else (-100.0, -220.0, -400.0, -555.5, -777.0, -950.0)):
+        out.append({"kind": "split_uniform", "split": split, "dense": tier != "quick"})
+        out.append({"kind": "split_antarctic", "split": split, "dense": tier != "quick"})
     for stack in ("u14_u16", "u14_u16_u15", "u_a"):
         out.append({"kind": "stack", "stack": stack})
     return out
@@ -204,15 +204,15 @@ def _split_case(case):
         whole = UniformIce(1.5, valid_range=(-1000, 0), index_above=1.0, index_below=1.8)
         ice = LayeredIce([UniformIce(1.5, valid_range=(d, 0), index_above=1.0), UniformIce(1.5, valid_range=(-1000, d), index_below=1.8)],
                          index_above=1.0, index_below=1.8)
-        zs = [-30.0, -250.0, -600.0, -900.0]
-        rhos = [2.0 ** -3, 80.0, 640.0]
+        zs = [-30.0, -250.0, -600.0, -900.0] if not case.get("dense") else [-30.0, -150.0, -250.0, -450.0, -600.0, -750.0, -900.0]
+        rhos = [2.0 ** -3, 80.0, 640.0] if not case.get("dense") else [2.0 ** -3, 20.0, 80.0, 250.0, 640.0, 1500.0]
         tolL, tolD = 1e-9, 1e-7
     else:
         whole = AntarcticIce()
         # internal boundaries: each layer is told that its neighbour continues with the same index (index_above/below = None)
         ice = LayeredIce([AntarcticIce(valid_range=(d, 0)), AntarcticIce(valid_range=(-2850, d), index_above=None)])
-        zs = [-30.0, -150.0, -300.0, -600.0]
-        rhos = [80.0, 320.0, 640.0]
+        zs = [-30.0, -150.0, -300.0, -600.0] if not case.get("dense") else [-30.0, -80.0, -150.0, -300.0, -450.0, -600.0]
+        rhos = [80.0, 320.0, 640.0] if not case.get("dense") else [80.0, 160.0, 320.0, 640.0, 1000.0]
         tolL, tolD = 3e-5, 2e-4
     geoms = list(itertools.product(zs, zs, rhos))
     # grazing crossings of the fictitious boundary: the connecting ray leaves within a degree of horizontal, i.e. at the very
